@@ -28,7 +28,7 @@ PROP = dict(
     regen=['crctable', 'wireconsts', 'integconsts'],
     theorems=['Fit.C11.C11_write_error_surfaces', 'Fit.C11.C11_error_surfaces_batch', 'Fit.C11.C11_success_means_no_fault',
               'Fit.C11.C11_error_surfaces_stream', 'Fit.C11.C11_call_error_surfaces', 'Fit.C11.C11_consts',
-              'Fit.C11.C11_prefix_never_valid', 'Fit.C11.C11_prefix_never_valid_stream',
+              'Fit.C11.C11_prefix_never_valid', 'Fit.C11.C11_crash_never_valid', 'Fit.C11.C11_prefix_never_valid_stream',
               'Fit.C11.C11_stale_header_witness'],
     families=[dict(name='enc-faults', prop=True)],
     extra=_extra,
